@@ -606,7 +606,8 @@ SPECS = [
                                        dict(k='flvec', A='I', space='rn3wa')], _expr, dk='nonzero'),
     OSpec('NumericalDerivative', [dict(m='forward'), dict(m='central'), dict(m='backward')],
           lambda o: odl.solvers.NumericalDerivative(odl.PowerOperator(odl.rn(3), 2),
-                                                    el(odl.rn(3), 0), method=o['m'])),
+                                                    el(odl.rn(3), 0), method=o['m']),
+          exempt_deriv=True, note='finite-difference approximation by design (not exactly linear)'),
     OSpec('NumericalGradient', [dict(m='forward'), dict(m='central'), dict(m='backward')],
           lambda o: odl.solvers.NumericalGradient(odl.solvers.L2NormSquared(odl.rn(3)), method=o['m']),
           exempt_deriv=True, note='finite-difference approximation by design'),
